@@ -156,6 +156,18 @@ def _helper_resolver(f):
     return resolve
 
 
+def canonical_spec(eng, f, spec):
+    """the specification with its calls written the way the canonical program writes them (keywords bound to positions where the callee is known)"""
+    if not getattr(eng, "canonical", False):
+        return spec
+    try:
+        tree = ast.parse(spec, mode="eval")
+        tree = eng.canon._calls(f, tree)
+        return ast.unparse(tree.body)
+    except SyntaxError:
+        return spec
+
+
 def check(eng, R, rule, cname, fname, kind, spec, target=None, when=None, what="", index=None, not_none=True, rename=None, known=(), inline_helpers=True):
     p = eng.p
     f = get_func(p, cname, fname)
@@ -166,18 +178,30 @@ def check(eng, R, rule, cname, fname, kind, spec, target=None, when=None, what="
     construct = "%s.%s:%s%s" % (cname or "", fname, target or "return", (":" + (when if isinstance(when, str) else "&".join(when))) if when else "")
     if not forms:
         raise AnalysisError("formula rule %s: nothing to extract from %s (%s %s)" % (rule, f.qualname, kind, target))
-    sp = norm_spec(spec, rename)
-    sp_leaves = leaves(ast.parse(spec, mode="eval").body)
+    specs = [spec] if isinstance(spec, str) else list(spec)   # alternatives: e.g. with a helper call, or with the helper written out
+    specs = [canonical_spec(eng, f, s_) for s_ in specs]
+    sps = [(norm_spec(s_, rename), leaves(ast.parse(s_, mode="eval").body)) for s_ in specs]
     inlined = None
     for i, (ct, form, lv) in enumerate(forms):
-        res, detail = compare(form, sp, lv, sp_leaves, known)
+        res, detail = "unknown", ""
+        for sp, sp_leaves in sps:
+            r_, d_ = compare(form, sp, lv, sp_leaves, known)
+            if r_ == "equal" or res == "unknown":
+                res, detail = r_, d_
+            if r_ == "equal":
+                break
         if res == "unknown":
             # the formula may have been moved into a helper of the same class: read through it once
             if inlined is None:
                 inlined = [t for t in extract(f, kind, target, when, index, inline=True, node=node) if not (not_none and t[1].canon() == "None")]
             if len(inlined) == len(forms):
                 ct, form, lv = inlined[i]
-                res, detail = compare(form, sp, lv, sp_leaves, known)
+                for sp, sp_leaves in sps:
+                    r_, d_ = compare(form, sp, lv, sp_leaves, known)
+                    if r_ == "equal" or res == "unknown":
+                        res, detail = r_, d_
+                    if r_ == "equal":
+                        break
         if res == "unknown":
             raise AnalysisError("formula rule %s at %s: %s (code: %s)" % (rule, f.qualname, detail, form.canon()[:200]))
         R.ob(rule, construct, res == "equal", (f.file, f.lineno),
@@ -190,9 +214,9 @@ def lambda_of_add_function(p, cname, fname, func_name_suffix):
     out = []
     for c in ast.walk(f.node):
         if isinstance(c, ast.Call) and isinstance(c.func, ast.Attribute) and c.func.attr == "add_function" and c.args and isinstance(c.args[0], ast.Lambda):
-            for k in c.keywords:
-                if k.arg == "func_name" and func_name_suffix in ast.unparse(k.value):
-                    out.append((c.args[0], f))
+            nm = next((k.value for k in c.keywords if k.arg == "func_name"), c.args[1] if len(c.args) > 1 else None)   # add_function(func, func_name, par_names, ...)
+            if nm is not None and func_name_suffix in ast.unparse(nm):
+                out.append((c.args[0], f))
     return out
 
 
